@@ -128,9 +128,42 @@ class CSess(_Sess, asyncssh.SSHClientSession):
 
 class SSess(_Sess, asyncssh.SSHServerSession):
     instant = None          # (unit or None): the command ends as it starts
+    bulk = None             # units written under callback flow control
+    _bulk_i = 0
+    _bulk_paused = False
+    _bulk_done = False
+
+    def _bulk_pump(self):
+        # the documented callback pattern: write until pause_writing(),
+        # go on from inside resume_writing()
+        while not self._bulk_paused and self._bulk_i < len(self.bulk):
+            unit = self.bulk[self._bulk_i]
+            self._bulk_i += 1
+            self.chan.write(unit)
+
+        if self._bulk_i == len(self.bulk) and not self._bulk_done:
+            self._bulk_done = True
+            self.chan.write_eof()
+            self.chan.exit(0)
+
+    _bulk_was_paused = False
+
+    def pause_writing(self):
+        self._bulk_paused = True
+        self._bulk_was_paused = True
+
+    def resume_writing(self):
+        self._bulk_paused = False
+
+        if self.bulk is not None:
+            self._bulk_pump()
 
     def session_started(self):
         super().session_started()
+
+        if self.bulk is not None:
+            self._bulk_pump()
+            return
 
         if self.instant is not None:
             # output, end of file and exit status leave together with the
@@ -165,9 +198,28 @@ def run_case(case) -> CaseResult:
 
             instant[ci] = (unit,)
 
+    bulk: Dict[int, List[Any]] = {}
+
+    for ci, cc in enumerate(case['chans']):
+        if cc.get('bulk'):
+            n, size = cc['bulk']
+            senc, cenc = srv['encoding'], cc['encoding']
+            units = []
+
+            for k in range(n):
+                if senc is None and cenc is not None:
+                    units.append(make_unit(cenc, ci, 'o', k,
+                                           size).encode(cenc))
+                else:
+                    units.append(make_unit(senc, ci, 'o', k, size))
+
+            bulk[ci] = units
+            instant[ci] = (None,)        # (no other ops on this channel)
+
     def session_factory():
         sess = SSess(store, ('s', len(ssessions)))
         sess.instant = instant.get(len(ssessions))
+        sess.bulk = bulk.get(len(ssessions))
         ssessions.append(sess)
         return sess
 
@@ -224,6 +276,15 @@ def run_case(case) -> CaseResult:
 
         for ci, (unit,) in instant.items():
             eof_sent.add((ci, 's'))
+
+            if ci in bulk:
+                sent[(ci, 'o')] = list(bulk[ci])
+                labels.add('callback-flow-control')
+
+                if ssessions[ci]._bulk_was_paused:
+                    labels.add('callback-flow-control:paused')
+                continue
+
             labels.add('instant-exit:' + ('data' if unit else 'empty'))
 
             if unit:
@@ -460,10 +521,22 @@ def strategy(tier: str):
 
             if draw(st.integers(0, 7)) == 0:
                 chans[-1]['instant'] = draw(pick([0, 0, 1, 5, 300]))
+            elif draw(st.integers(0, 9)) == 0:
+                # more than the peer's window plus the 64 KiB write buffer
+                chans[-1]['bulk'] = [draw(pick([90, 150])),
+                                     draw(pick([1000, 1500]))]
+                # (cost bound: a 135-225 kB stream in packets of 1 byte
+                # would be minutes of stepping)
+                chans[-1]['window'] = draw(pick([4096, 65536]))
+                chans[-1]['pktsize'] = draw(pick([1024, 32768]))
 
         chunks = draw(st.one_of(st.just([]), st.just([1]),
                                 st.lists(st.integers(1, 3000), min_size=1,
                                          max_size=6)))
+
+        if any('bulk' in c for c in chans):
+            chunks = draw(pick([[], [4000], [1500, 700]]))
+
         ci = st.integers(0, nchan - 1)
 
         def wop(draw):
@@ -657,7 +730,8 @@ FAMILIES = [
                              'multi-chan', 'eof', 'pause', 'chunk-1byte',
                              'rekey', 'exit-right-after-eof',
                              'instant-exit:empty', 'instant-exit:data',
-                             'resume-while-data-arrives']},
+                             'resume-while-data-arrives',
+                             'callback-flow-control:paused']},
            timeout_is_violation=True, case_timeout=120),
     Family('streams', run_streams, strategy=streams_strategy,
            budget={'quick': 600, 'thorough': 8000},
